@@ -265,7 +265,7 @@ class DefaultWorker(Worker):
             os.environ[k] = v
 
         # ----------------------------------------------------------------------
-        def _worker_proc(res_lock):
+        def _worker_proc(res_lock, res_done):
             # FIXME: do we still need this thread?
 
             import setproctitle
@@ -306,6 +306,7 @@ class DefaultWorker(Worker):
 
             with res_lock:
                 self._result_queue.put(res)
+                res_done.set()
         # ----------------------------------------------------------------------
 
 
@@ -317,15 +318,21 @@ class DefaultWorker(Worker):
           #                 task['uid'], task['pid'], tout)
 
             res_lock = mp.Lock()
-            worker_proc = mp.Process(target=_worker_proc, args=(res_lock,))
+            res_done = mp.Event()
+            worker_proc = mp.Process(target=_worker_proc,
+                                     args=(res_lock, res_done))
             worker_proc.daemon = True
             worker_proc.start()
             worker_proc.join(timeout=tout)
 
             with res_lock:
-                if worker_proc.is_alive():
-                    worker_proc.terminate()
-                    worker_proc.join()
+                # NOTE: the worker process may have delivered its result but
+                #       not yet have exited: check for the result, not for the
+                #       process - every request yields exactly one result
+                if not res_done.is_set():
+                    if worker_proc.is_alive():
+                        worker_proc.terminate()
+                        worker_proc.join()
                     out = None
                     err = 'timeout (>%s)' % tout
                     ret = 1
